@@ -706,6 +706,9 @@ func (fv *FuncVC) selectField(st *State, base Val, name string) Val {
 		_ = s
 	}
 	cur.St = base.St
+	if fv.binderDepth == 0 && cur.T != nil {
+		fv.typeFacts(Val{T: cur.T, C: cur.C}, st, "true")
+	}
 	return cur
 }
 
@@ -1160,10 +1163,18 @@ func (fv *FuncVC) checkPost(fr *Frame, b *ssa.BasicBlock, st *State, reach strin
 		cs = append(cs, v.C...)
 	}
 	fv.bindResults(env.names, Val{T: rt, C: cs}, rt)
+	// parameter names in post-conditions denote entry values (Go parameters are mutable)
+	for _, p := range fr.fn.Params {
+		if _, clash := env.names[p.Name()]; !clash {
+			env.names[p.Name()] = fv.get(fr, p)
+		}
+	}
 	// named results
 	for _, e := range con.Ensures {
 		t := fv.evalClause(env, e)
 		fv.oblige("post", clauseLabel(e), reach, t, e.Text, pos)
+		// later clauses may rely on earlier ones (each is still an obligation of its own)
+		fv.ctx.Assume(Implies(reach, t))
 	}
 	for _, e := range fr.extraEnsures {
 		t := fv.evalClause(env, e)
